@@ -1153,5 +1153,7 @@ def lerchphi(ctx, z, s, a):
         ((a**2+t**2)**h * ctx.expm1(r*t))
     v += 2*ctx.quad(f, [0, ctx.inf])
     if not ctx.im(z) and not ctx.im(s) and not ctx.im(a) and ctx.re(z) < 1:
-        v = ctx.chop(v)
+        # the value is real; drop the numerical imaginary part only
+        # (chop would also replace small real values by zero)
+        v = ctx._re(v)
     return v
